@@ -6,11 +6,11 @@ The hypothesis `KeyFaithful` of the default-comparison theorem (`CompareKeyed.le
   `[x, y]` and `[y, x]` are equal up to order and two differences are reported.  With the key
   `json.dumps(item, sort_keys=True, default=repr)` (fixes C07-b, C07-c) two distinct leaves of genuine Python values
   never have the same key; in the model they can, because floats are opaque lexemes (`.flt "1"` against `.int 1`).
-* **It holds for leaves** (`dt_keyFaithful_leaves`): when the non-record list items of the two trees are leaves
-  (`None`, `bool`, `int`, `float`, `str`) and every float lexeme looks like the `repr` of a float (`FloatLex`), the
-  JSON text is injective on them: `null`, `true`/`false`, decimal digits, a float lexeme, a quoted string.
-  For lists nested in lists the hypothesis stays a statement about `json.dumps` (injective up to the order of
-  dictionary keys) that is not proved here.
+* **Not proved here**: `KeyFaithful` itself.  It is a statement about `json.dumps(…, sort_keys=True)` — injective up to
+  the order of dictionary keys: `null`, `true`/`false`, decimal digits, a float lexeme, a quoted string with its
+  escapes, `[…]`, `{…}` with sorted members — which needs a well-formedness predicate on float lexemes and the
+  unambiguity of the JSON grammar; the default-comparison theorem takes it as its one hypothesis and the examples
+  discharge it by `decide` on concrete trees.
 -/
 namespace N0.Compare
 open N0
